@@ -132,6 +132,15 @@ static const char *const T_C04[] = {
 	"N0 | a0 a0 a0 | B0",
 	"N0 | A0 | b0",
 	"N0 | s0 | s0 | B0",
+	// a barrier_sync completing (hand-over path) with readers queued behind it while another thread pushes the next barrier
+	"C0 | B0 a0 | b0 a0",
+	"C0 | B0 | a0 b0",
+	"C0 | B0 | a0 a0 | b0",
+	"C0 | B0 | a0 | B0",
+	"C0 | B0 | a0 | b0",
+	"slow; C0 | B0 | a0 | z0 b0",
+	"slow; C0 | B0 | a0 a0 | z0 b0",
+	"slow; C0 | B0 | a0 | z0 B0",
 	// slow items: every overlap the queue permits is reached at k=0, barriers must still exclude
 	"slow; C0 | a0 b0 a0 | a0",
 	"slow; C0 | a0 a0 | B0 a0",
